@@ -545,7 +545,13 @@ impl<'de, 'a, 'c, 'g> Visitor<'de> for UnionV<'a, 'c, 'g> {
 		}
 		let b = matching[0];
 		let shape = self.cap.shape.and_then(|s| s.get("x"));
-		let v = access.newtype_variant_seed(self.cap.child_shaped(variants[b], b, shape))?;
+		let child = self.cap.child_shaped(variants[b], b, shape);
+		if self.cap.ctx.ignore.iter().any(|p| *p == child.path) {
+			// a unit variant for this branch: the payload is skipped by the deserializer
+			access.unit_variant()?;
+			return Ok(json!({"t": "un", "b": b, "x": {"t": "ignored"}}));
+		}
+		let v = access.newtype_variant_seed(child)?;
 		Ok(json!({"t": "un", "b": b, "x": v}))
 	}
 }
